@@ -1,6 +1,7 @@
 SPECIFICATION Spec
 CONSTANTS
   Depth = 6
+  LeafReadOnly = FALSE
   BlockLits = {"B0", "B1"}
   CatLits = {"C2", "C3"}
   ColLits = {"x", "zz"}
